@@ -552,7 +552,12 @@ def run_git(case):
         r = core.git(NOGRAPH + ["rev-list", "--topo-order"] + [ids[i].decode() for i in inc] + ["^" + ids[exc[0]].decode()], cwd=d)
         g = [idx[x] for x in r.stdout.split()]
         if sorted(g) != bits(reach & ~anc[exc[0]]):
-            V("C13/ORACLE-DISAGREES-WITH-GIT/rev-list-exclude", inc=inc, exc=exc)
+            if cls == "skewed":
+                # C git's own revision limiting is only a heuristic once commit dates run backwards (limit_list's "slop"): it is no
+                # reference there, and the property itself exempts walks with excludes under non-monotone clocks
+                stats["git_rev_list_exclude_inexact_under_skew"] = stats.get("git_rev_list_exclude_inexact_under_skew", 0) + 1
+            else:
+                V("C13/ORACLE-DISAGREES-WITH-GIT/rev-list-exclude", inc=inc, exc=exc)
         stats["git_queries"] = stats.get("git_queries", 0) + 5
         if cls == "strict" and len(set(times)) == n:
             from dulwich.walk import Walker
